@@ -625,3 +625,66 @@ func twoClosurePositions(rep *Report, prop, api string) {
 		rep.addViolation("property", prop+":"+api+":closure-positions", fmt.Sprintf("a handler with two function-typed parameters invoked each once: the first function ran %d time(s), the second %d; the handler saw %+v (want \"1000|<nil>|<nil>\", once each) — an argument did not arrive at its position", first, second, r), d)
 	}
 }
+
+// c01PingPong (C01): calls in BOTH directions that are nested in each other — a handler calls back into its caller
+// with the context it was handed, that handler calls back again, … (Bounce: a chain; Tree: two nested calls per
+// level, concurrently) — started from both sides at once. Every call returns the value its own handler produced:
+// Bounce(d) = d, Tree(d) = 2^(d+1) − 1. (Each end's pending-call table holds the outer calls while the inner ones
+// register: ids inherited along the chain, or correlation by anything but a fresh id, cross them.)
+func c01PingPong(rep *Report, prop, api string) {
+	rep.Evaluations++
+	rep.Distinct++
+	desc := map[string]any{"suite": "C01-ping-pong", "api": api}
+	p, err := NewPair(jsonRaw(), PairOpts{API: api})
+	if err != nil {
+		rep.addViolation("property", prop+":ping-pong:setup", "link setup failed: "+err.Error(), desc)
+		return
+	}
+	defer p.Shutdown()
+	ra, _, _ := p.A.AnyRemote()
+	rb, _, _ := p.B.AnyRemote()
+	type job struct {
+		dir, fn string
+		depth   int
+	}
+	var jobs []job
+	for d := 0; d <= 6; d++ {
+		jobs = append(jobs, job{"A->B", "Bounce", d}, job{"B->A", "Bounce", d})
+	}
+	for d := 1; d <= 3; d++ {
+		jobs = append(jobs, job{"A->B", "Tree", d}, job{"B->A", "Tree", d})
+	}
+	var mu sync.Mutex
+	run := func(j job) {
+		rem := ra
+		if j.dir == "B->A" {
+			rem = rb
+		}
+		want := j.depth
+		r := withWatchdog(func() (any, error) {
+			if j.fn == "Tree" {
+				return rem.Tree(context.Background(), j.depth)
+			}
+			return rem.Bounce(context.Background(), j.depth)
+		})
+		if j.fn == "Tree" {
+			want = 1<<(j.depth+1) - 1
+		}
+		if !r.ok || r.err != nil || r.val.(int) != want {
+			mu.Lock()
+			rep.addViolation("property", prop+":ping-pong:"+api+":"+j.fn, fmt.Sprintf("%s %s(%d): nested calls alternating direction, each handler calling back with the context it was handed: got %+v, want (%d, nil)", j.dir, j.fn, j.depth, r, want), desc)
+			mu.Unlock()
+		}
+	}
+	// one after the other, then all at once from both sides
+	for _, j := range jobs {
+		run(j)
+	}
+	var wg sync.WaitGroup
+	for _, j := range jobs {
+		j := j
+		wg.Add(1)
+		go func() { defer wg.Done(); run(j) }()
+	}
+	wg.Wait()
+}
